@@ -87,3 +87,9 @@ chk('C10', 'exploration',
     'Held on the histories produced; every history is replayable from its key.',
     'Trusted: the model classes in checks/c10.py (MSeg/MLoop, m_select, m_first_segment, insert_idx).',
     'model-based runtime checking over generated API call histories', 'DESIGN.md 5 C10')
+chk('C19', 'exploration',
+    'The HTML written by the real x12n_document for fixtures, generated valid/faulty documents with markup canaries planted in echoed data, other delimiters, many-error segments, structural mutants and '
+    'multi-interchange inputs is tokenised with html.parser: completeness, tag/attribute whitelist (nothing from the input may become markup), exact recovery of every source segment with its line number, '
+    'and adjacency of every segment/element-level message of the captured error tree to its segment. A classifier of the report cursor\'s state separates the listed err_iter findings from anything new.',
+    'Trusted: stdlib html.parser, vlib/ref_token.py for the source segments, the captured error tree for which messages must appear.',
+    'runtime monitor of the rendered report against the source tokenisation and the hooked error tree', 'DESIGN.md 5 C19')
